@@ -1,4 +1,5 @@
 pub mod c02conc;
+pub mod racelanes;
 pub mod c05;
 pub mod c06;
 pub mod c07;
